@@ -88,6 +88,10 @@ type scriptFiller struct {
 
 func frameFor(id int) []byte {
 	n := 20 + id%41
+	if id%13 == 7 {
+		// frames at and past the Ethernet MTU, jumbo frames, the largest IPv4 datagram: every size must reach the writer whole
+		n = []int{1514, 1515, 1516, 2048, 4096, 9014, 16384, 65535}[(id/13)%8]
+	}
 	b := make([]byte, n)
 	binary.BigEndian.PutUint64(b, uint64(id))
 	for i := 8; i < n; i++ {
